@@ -88,17 +88,28 @@ pub fn handle(op: &str, req: &Value) -> Option<Value> {
         let seen = Arc::new(AtomicUsize::new(0));
         let (g2, slot) = (g.clone(), b_result.clone());
         let main_thread = std::thread::current().id();
-        *graph_engine::VERIF_RMW_WINDOW.write() = Some(Arc::new(move |_key: &str| {
+        let at_checks = conc["window"].as_str() == Some("endpoints_checked");
+        let del = conc["delete_node"].as_u64().map(node_of);
+        *graph_engine::VERIF_RMW_WINDOW.write() = Some(Arc::new(move |key: &str| {
             if std::thread::current().id() != main_thread {
                 return;
             }
-            if seen.fetch_add(1, Ordering::SeqCst) != window {
+            // adjacency windows are labelled with the list key; the point after create_edge's endpoint checks has its own label
+            let is_list = key.starts_with("node:");
+            if at_checks {
+                if is_list || seen.fetch_add(1, Ordering::SeqCst) != 0 {
+                    return;
+                }
+            } else if !is_list || seen.fetch_add(1, Ordering::SeqCst) != window {
                 return;
             }
             let (tx, rx) = mpsc::channel();
             let g3 = g2.clone();
             let h = std::thread::spawn(move || {
-                let r = g3.create_edge(bf, bt, "B", HashMap::new(), bd).map_err(|e| e.to_string());
+                let r = match del {
+                    Some(n) => g3.delete_node(n).map(|()| 0).map_err(|e| e.to_string()),
+                    None => g3.create_edge(bf, bt, "B", HashMap::new(), bd).map_err(|e| e.to_string()),
+                };
                 let _ = tx.send(());
                 r
             });
@@ -178,6 +189,7 @@ pub fn handle(op: &str, req: &Value) -> Option<Value> {
     let mut b_outcome = Value::Null;
     if let Some(h) = b_result.lock().unwrap().take() {
         match h.join() {
+            Ok(Ok(id)) if conc["delete_node"].is_u64() => b_outcome = json!(format!("deleted (Ok({id}))")),
             Ok(Ok(id)) => {
                 b_outcome = json!(format!("Ok({id})"));
                 let (bf, bt, bd) = b_edge.unwrap();
